@@ -221,6 +221,7 @@ type chainJob struct {
 	leafKey string
 	rsaCA   bool
 	label   string
+	narrow  bool // narrow the validity window of the certificate the signing time targets
 }
 
 func runChainJob(r *Runner, j chainJob, idx int) {
@@ -246,6 +247,18 @@ func runChainJob(r *Runner, j chainJob, idx int) {
 		m.fn(specs, j.poss[k])
 		if !m.benign {
 			expectBenign = false
+		}
+	}
+	// signing-time cases: make the targeted certificate's window the narrowest one, so that it is the
+	// only certificate whose bound the signing time crosses (windows of a real chain need not nest)
+	if j.narrow {
+		var ci int
+		var bound string
+		var d int
+		if n, _ := fmt.Sscanf(j.stKind, "%d:%1s:%d", &ci, &bound, &d); n == 3 && ci < len(specs) {
+			now := baseTime()
+			specs[ci].NotBefore = now.Add(-time.Hour)
+			specs[ci].NotAfter = now.Add(time.Hour)
 		}
 	}
 	chain, _, err := buildChain(specs)
@@ -366,6 +379,7 @@ func genChain(r *Runner, purpose string) {
 				for _, b := range []string{"b", "a"} {
 					for _, d := range []int{-1000, -1, 0, 1, 500, 1000} {
 						jobs = append(jobs, chainJob{purpose: purpose, n: n, stKind: fmt.Sprintf("%d:%s:%d", ci, b, d), label: "signing-time"})
+						jobs = append(jobs, chainJob{purpose: purpose, n: n, stKind: fmt.Sprintf("%d:%s:%d", ci, b, d), label: "signing-time-narrow", narrow: true})
 					}
 				}
 			}
@@ -438,7 +452,7 @@ func genChain(r *Runner, purpose string) {
 		if purpose == "cs" && rng.Intn(3) == 0 {
 			st = fmt.Sprintf("%d:%s:%d", rng.Intn(n), []string{"a", "b"}[rng.Intn(2)], []int{-1000, 0, 1000}[rng.Intn(3)])
 		}
-		jobs = append(jobs, chainJob{purpose: purpose, n: n, muts: ms, poss: ps, stKind: st, rsaCA: rng.Intn(4) == 0, label: "random"})
+		jobs = append(jobs, chainJob{purpose: purpose, n: n, muts: ms, poss: ps, stKind: st, rsaCA: rng.Intn(4) == 0, label: "random", narrow: rng.Intn(2) == 0})
 	}
 	if quick {
 		// keep RSA-heavy work bounded in the quick tier
